@@ -36,6 +36,7 @@ type HarnessFile struct {
 	AssumeDoc  []string
 	LazyFork   bool
 	EngineOnly map[string]bool
+	Concretize map[string][]string
 }
 
 func parseHarnessFile(path string) (*HarnessFile, error) {
@@ -44,7 +45,7 @@ func parseHarnessFile(path string) (*HarnessFile, error) {
 		return nil, err
 	}
 	defer f.Close()
-	hf := &HarnessFile{Path: path, Budget: map[string]int{}, Intercepts: map[string]string{}, Thorough: map[string]bool{}, EngineOnly: map[string]bool{}, Backend: "z3"}
+	hf := &HarnessFile{Path: path, Budget: map[string]int{}, Intercepts: map[string]string{}, Thorough: map[string]bool{}, EngineOnly: map[string]bool{}, Concretize: map[string][]string{}, Backend: "z3"}
 	sc := bufio.NewScanner(f)
 	sc.Buffer(make([]byte, 1<<20), 1<<20)
 	for sc.Scan() {
@@ -76,6 +77,14 @@ func parseHarnessFile(path string) (*HarnessFile, error) {
 			hf.AssumeDoc = append(hf.AssumeDoc, val)
 		case "noifconvert":
 			hf.NoIfConv = true
+		case "concretize":
+			for _, fp := range strings.Fields(val) {
+				i := strings.LastIndexByte(fp, ':')
+				if i < 0 {
+					return nil, fmt.Errorf("%s: bad concretize %q (want func:param)", path, fp)
+				}
+				hf.Concretize[fp[:i]] = append(hf.Concretize[fp[:i]], fp[i+1:])
+			}
 		case "lazyfork":
 			hf.LazyFork = true
 		case "engine-only":
@@ -123,6 +132,7 @@ type Group struct {
 	NoIfConv   bool
 	LazyFork   bool
 	EngineOnly map[string]bool
+	Concretize map[string][]string
 }
 
 func groupFiles(files []*HarnessFile) []*Group {
@@ -132,7 +142,7 @@ func groupFiles(files []*HarnessFile) []*Group {
 		key := f.Pkg + "|" + f.Tags + "|" + f.Backend
 		g := m[key]
 		if g == nil {
-			g = &Group{Pkg: f.Pkg, PkgName: f.PkgName, Tags: f.Tags, Backend: f.Backend, Budget: map[string]int{}, Intercepts: map[string]string{}, Thorough: map[string]bool{}, EngineOnly: map[string]bool{}}
+			g = &Group{Pkg: f.Pkg, PkgName: f.PkgName, Tags: f.Tags, Backend: f.Backend, Budget: map[string]int{}, Intercepts: map[string]string{}, Thorough: map[string]bool{}, EngineOnly: map[string]bool{}, Concretize: map[string][]string{}}
 			m[key] = g
 			order = append(order, key)
 		}
@@ -149,6 +159,9 @@ func groupFiles(files []*HarnessFile) []*Group {
 		}
 		g.NoIfConv = g.NoIfConv || f.NoIfConv
 		g.LazyFork = g.LazyFork || f.LazyFork
+		for k, v := range f.Concretize {
+			g.Concretize[k] = append(g.Concretize[k], v...)
+		}
 		for k, v := range f.EngineOnly {
 			g.EngineOnly[k] = v
 		}
